@@ -404,12 +404,42 @@ func c08Rotate(c *Ctx, rp string) {
 	var gNext core.Guard
 	createSites[0].In(func() {
 	var ok bool
-	tmpl, ok = core.Strip(cc.Call.Args[1]).(*ssa.Alloc)
+	tmplCaller := core.Strip(cc.Call.Args[1])
+	tmpl, ok = tmplCaller.(*ssa.Alloc)
+	var helperStores []fieldStore
+	var hsubst map[ssa.Value]ssa.Value
+	inHelper := map[*ssa.Store]bool{}
+	if !ok {
+		// built by a helper: the literal the helper returns; its field values are
+		// read with the helper's parameters standing for the arguments
+		if vals, hs, h := helperResult(tmplCaller); h != nil && len(vals) == 1 {
+			if al, isAl := core.Strip(vals[0]).(*ssa.Alloc); isAl {
+				tmpl, ok = al, true
+				helperStores = fieldStores(al)
+				hsubst = hs
+				r.Fn(core.FuncName(h))
+			}
+		}
+	}
 	if !ok {
 		r.Unk(rule2, name+" template", p.Pos(cc.Pos()), "template is not a local literal")
 		return
 	}
-	ts = storesOf(tmpl)
+	ts = storesOf(tmplCaller)
+	for _, fs := range helperStores {
+		ts[fs.Field] = append(ts[fs.Field], fs)
+		inHelper[fs.St] = true
+	}
+	timeFormOf := func(fs fieldStore) core.TimeForm {
+		var tf core.TimeForm
+		if inHelper[fs.St] {
+			core.WithSubst(hsubst, func() { tf = core.TimeFormOf(fs.Val) })
+		} else {
+			tf = core.TimeFormOf(fs.Val)
+		}
+		return tf
+	}
+	isTmpl := func(v ssa.Value) bool { return v == ssa.Value(tmpl) || v == tmplCaller }
 	scc := sccOf(cc.Block())
 	var header *ssa.BasicBlock
 	if scc != nil {
@@ -442,11 +472,11 @@ func c08Rotate(c *Ctx, rp string) {
 		var initForm, shiftForm *core.TimeForm
 		var shiftSt *ssa.Store
 		for _, s := range ts[f] {
-			tf := core.TimeFormOf(s.Val)
+			tf := timeFormOf(s)
 			if tf.Base == "now" {
 				t := tf
 				initForm = &t
-			} else if tf.Base == "field:"+f && tf.Root == ssa.Value(tmpl) {
+			} else if tf.Base == "field:"+f && isTmpl(tf.Root) {
 				t := tf
 				shiftForm = &t
 				shiftSt = s.St
@@ -520,7 +550,7 @@ func c08Rotate(c *Ctx, rp string) {
 				continue
 			}
 			tf := core.TimeFormOf(nc.Call.Args[0])
-			if tf.Base != "field:"+f || tf.Root != ssa.Value(tmpl) || len(tf.Terms) != 0 {
+			if tf.Base != "field:"+f || !isTmpl(tf.Root) || len(tf.Terms) != 0 {
 				continue
 			}
 			okSt = true
@@ -557,7 +587,7 @@ func c08Rotate(c *Ctx, rp string) {
 		ku = isK && k&32 != 0
 	}
 	r.Check(ku, r3, name+" template KeyUsage", p.Pos(tmpl.Pos()), "includes CertSign", "minted root cannot sign certificates")
-	r.Check(core.Strip(cc.Call.Args[2]) == ssa.Value(tmpl), r3, name+" self-signed", p.Pos(cc.Pos()), "parent is the template itself", "minted root is not self-signed")
+	r.Check(isTmpl(core.Strip(cc.Call.Args[2])), r3, name+" self-signed", p.Pos(cc.Pos()), "parent is the template itself", "minted root is not self-signed")
 	gk, gi := core.CallResult(core.Strip(cc.Call.Args[3]))
 	gk2, gi2 := core.CallResult(core.Strip(cc.Call.Args[4]))
 	okKey := gk != nil && gk == gk2 && gi == 0 && gi2 == 1 && core.CalleeName(gk.Common()) == "crypto/ed25519.GenerateKey"
